@@ -237,3 +237,5 @@ NOT_COVERED = [
 ]
 
 import contracts.c13b  # noqa: E402,F401  (merge_repeated_kwargs: repeated kwargs, shared with C13)
+
+import contracts.c02b  # noqa: E402,F401  (_extract_flags)
